@@ -27,7 +27,8 @@ RULE = ("O1: 13 connection types x 3 request shapes (two of them against interim
         "O2: holder/waiter histories on max_connections=1 with release time S and pool timeouts P over orderings "
         "S<P, S=P-eps, S=P+eps, S>P, P=0, several waiters, on asyncio, trio and threads under the controlled "
         "scheduler; plus the real synchronous back-end over loopback sockets (direct, TLS, CONNECT tunnel, SOCKS5): the timeout in "
-        "force on the socket at every connect / handshake / send / recv; distinct+non-trivial = (type, shape, flavour, config) "
+        "force on the socket at every connect / handshake / send / recv; and the real asynchronous back-ends: the deadline given to "
+        "anyio.fail_after / trio.fail_after by every operation, for distinct, absent and zero timeouts; distinct+non-trivial = (type, shape, flavour, config) "
         "for O1 and (flavour, ordering) for O2")
 ASSUMPTIONS = ["virtual clock shared by the event loop / thread scheduler and httpcore's time.monotonic",
                "proxy CONNECT exchange is an ordinary HTTP exchange (read/write values apply); only SOCKS negotiation "
@@ -368,11 +369,54 @@ def run_real(case):
     return {"viol": viol, "counters": cnt, "sigs": sigs, "sample": None}
 
 
+def run_real_async(case):
+    """The real asynchronous back-ends over loopback sockets: the deadline each operation hands to anyio.fail_after /
+    trio.fail_after (recorded by a stand-in for the `anyio` / `trio` names inside the back-end modules), for distinct,
+    absent and zero timeouts; and the class of the timeout error that a zero timeout produces."""
+    from .. import realsock
+    viol = []
+    cnt = {k: 0 for k in REQUIRED}
+    cnt["real_backend_ops_checked"] = 0
+    sigs = []
+    seen = set()
+    for backend in ("anyio", "trio"):
+        for cfg in realsock.ASYNC_LEDGER_CONFIGS:
+            for tls in (False, True):
+                res = realsock.async_timeout_ledger(backend, cfg, tls)
+                cnt["real_backend_ops_checked"] += len(res["ledger"])
+                cnt["o1_ops_checked"] += len(res["ledger"])
+                sigs.append(f"real|{backend}|{cfg}|tls{int(tls)}|{len(res['ledger'])}")
+                ctx = {"backend": backend, "config": cfg, "tls": tls, "ledger": [[f, repr(t)] for f, t in res["ledger"]],
+                       "outcome": repr(res.get("exc") or res.get("status"))}
+                if not res["ledger"]:
+                    return {"viol": viol, "counters": cnt, "sigs": sigs, "sample": None,
+                            "inconclusive": f"no fail_after() call recorded for {backend}/{cfg}"}
+                for fn, t, want in realsock.judge_async_ledger(res):
+                    key = f"real-backend:wrong-timeout:{backend}:{fn}:{'zero' if want == 0 else 'value'}"
+                    if key not in seen:
+                        seen.add(key)
+                        viol.append({"key": key, "what": f"{backend} back-end: {fn} ran under fail_after({t!r}), expected {want!r} "
+                                                         f"(timeouts {res['timeouts']})", "detail": ctx})
+                want_exc = realsock.ASYNC_LEDGER_EXPECT[cfg]
+                exc = res.get("exc")
+                ok = (exc is None and res.get("status") == 200) if want_exc is None else isinstance(exc, want_exc)
+                if not ok:
+                    key = f"real-backend:wrong-outcome:{backend}:{cfg}:{type(exc).__name__ if exc is not None else res.get('status')}"
+                    if key not in seen:
+                        seen.add(key)
+                        viol.append({"key": key, "what": f"{backend} back-end with timeouts {res['timeouts']}: {exc!r} / status "
+                                                         f"{res.get('status')}, expected {want_exc.__name__ if want_exc else 200}",
+                                     "detail": ctx})
+    return {"viol": viol, "counters": cnt, "sigs": sigs, "sample": None}
+
+
 def run_case(case):
     if case["kind"] == "o1":
         return run_o1(case)
     if case["kind"] == "real":
         return run_real(case)
+    if case["kind"] == "real-async":
+        return run_real_async(case)
     return run_o2(case)
 
 
@@ -384,4 +428,5 @@ def plan(tier, seed):
     for flavor in ("asyncio", "trio", "sync"):
         cases.append({"kind": "o2", "flavor": flavor, "seed": seed, "sched_seeds": 3 if tier == "quick" else 40})
     cases.append({"kind": "real", "modes": ["direct-http", "direct-https", "tunnel-https", "socks-https"], "seed": seed})
+    cases.append({"kind": "real-async", "seed": seed})
     return cases
